@@ -128,6 +128,30 @@ def run(prop, tier, replay=None):
                                                       replay_driver="proxy")
                 elif pp.returncode != 0:
                     raise C.Infra("proxy driver (race build) failed:\n" + pp.stdout[-3000:])
+                # ... and what the interceptor's stream wrapper noticed: a forwarder that has returned must have stopped
+                # using the stream (Proxy.tla NoPumpOutlivesHandler)
+                if os.path.exists(ptr) and os.path.getsize(ptr) > 0:
+                    prep = C.validate_shards(scratch, "ProxyTrace.tla", "ProxyTrace.cfg", [(ptr, sum(1 for _ in open(ptr)))], timeout=1800)[0]
+                    plines_ = open(ptr).read().splitlines()
+                    for f in prep["failed"]:
+                        if not f[2].startswith("PumpOutlivesHandler"):
+                            continue
+                        ev = json.loads(plines_[f[1] - 1])
+                        s_ = ev["s"]
+                        v_ = ev["http"] if f[2].endswith("HTTP") else ev["proxied"]
+                        backend_first = (s_["mode"] == "lockstep" and s_["failK"] > 0) or (s_["mode"] == "batch" and s_["failAt"] != "never")
+                        sig = dict(module="Proxy", formula="PumpOutlivesHandler", backend_fails=backend_first, shape=s_["shape"])
+                        kf = C.match_finding(findings, prop, sig)
+                        if kf:
+                            known[kf["id"]] += 1
+                            continue
+                        key = ("PumpOutlivesHandler", s_["shape"], s_["mode"], backend_first)
+                        if key in viol:
+                            viol[key]["more"] += 1
+                            continue
+                        viol[key] = dict(property=prop, formula=f[2], seed=sd, cases=[s_], observed=ev, signature=sig, more=0, replay_driver="proxy",
+                                         what="%s: proxied %s %s n=%d failAt=%s failK=%d: %d call(s) on the interceptor's stream in progress at or begun after the forwarder's return" % (
+                                             f[2], s_["shape"], s_["mode"], s_["n"], s_["failAt"], s_["failK"], v_["ilate"]))
             # split: Rpc events to RpcTrace, Retain events to PoolTrace
             rt, pt = scratch.path("rpc%d.ndjson" % k), scratch.path("pool%d.ndjson" % k)
             with open(rt, "w") as fr, open(pt, "w") as fp:
